@@ -191,7 +191,9 @@ func (u *Unit) evalBuiltin(st *State, call *ast.CallExpr, name string) []Value {
 		if len(call.Args) > 2 {
 			c = u.eval(st, call.Args[2])
 		}
-		u.failure(st, "make", Or(Lt(n.Term, IntLit(0)), Gt(n.Term, c.Term), Gt(c.Term, IntLit(maxSliceLen))))
+		u.failure(st, "make", Or(Lt(n.Term, IntLit(0)), Gt(n.Term, c.Term)))
+		// out-of-memory is outside the model: an allocation that succeeds has at most 2^48 elements
+		st.Assume(Le(c.Term, IntLit(maxSliceLen)))
 		return []Value{u.allocBlock(st, sl.Elem(), n.Term, c.Term)}
 	case "append":
 		s := u.eval(st, call.Args[0])
@@ -259,7 +261,7 @@ func (u *Unit) appendSlice(st *State, s Value, t *Value, v *Value) Value {
 	// grown: fresh block at b of capacity c' >= newLen: copy, then the rest zero
 	ncap := u.ctx.Fresh("growcap", SInt)
 	st.Assume(And(Ge(ncap, newLen), Le(ncap, IntLit(maxSliceLen))))
-	u.failure(st, "append-size", Gt(newLen, IntLit(maxSliceLen)))
+	st.Assume(Le(newLen, IntLit(maxSliceLen))) // allocation succeeded (out-of-memory is outside the model)
 	nh := u.ctx.Fresh(u.symName("H:"+elemKey(elem)), h.Sort)
 	q := boundVar("q?" + fmt.Sprint(u.nextBound()))
 	srcAt := func(k *Term) *Term { // k-th appended element
@@ -478,9 +480,11 @@ func (u *Unit) callByContract(st *State, fi *FuncInfo, targs []types.Type, args 
 			}
 		}
 	}
+	u.inCallee = true
 	for m := range ct.Modifies {
 		u.havocClass(st, m, ct, env)
 	}
+	u.inCallee = false
 	for k, t := range exact {
 		st.mem[k] = t
 	}
@@ -544,6 +548,14 @@ func (u *Unit) havocClass(st *State, m string, ct *Contract, env *SpecEnv) {
 			return
 		}
 		elem = u.elemOf(env, ae)
+	}
+	if u.inCallee {
+		switch cls {
+		case "H":
+			u.writeEvent(st, "H:"+elemKey(elem))
+		case "hdr":
+			u.writeEvent(st, "dlen:"+elemKey(elem))
+		}
 	}
 	switch cls {
 	case "H":
